@@ -176,8 +176,11 @@ def read_substitution_matrix(file):
 def detect_ndim(s):
     if np is not None and isinstance(s, np.ndarray):
         return s.ndim
-    if type(s) is list and len(s) > 0:
+    if type(s) in [list, tuple] and len(s) > 0:
         return detect_ndim(s[0]) + 1
+    if isinstance(s, array):
+        # array.array is always a one-dimensional series
+        return 1
     if type(s) in [int, float]:
         return 0
     return None
